@@ -260,7 +260,8 @@ pub fn run(p: &Params) -> Report {
     }
     let n = p.budget(160, 12_000);
     for i in 0..n {
-        scenario(p.shard_seed(i), p, &mut rep);
+        let seed = p.shard_seed(i);
+        crate::util::guarded(&mut rep, seed, |rep| scenario(seed, p, rep));
     }
     rep
 }
